@@ -90,6 +90,8 @@ pub fn blocks(thorough: bool) -> Vec<Block> {
         }
         b.push(Block::new(Universe::new("U_adv(A_gc)", A_GC, 3, 1, false), k3.clone(), "Lambda<=3 (no u,c)"));
         b.push(Block::new(Universe::new("U_adv(A_gc)", A_GC, 2, 3, true), vec![Cfg::new(0)], "{}"));
+        b.push(Block::new(Universe::new("U_abc3{a,b,c}", &["a", "b", "c"], 3, 6, false), vec![Cfg::new(0)], "{} (sets of up to 6 strings)"));
+        b.push(Block::new(Universe::new("U_ab4{a,b}", &["a", "b"], 4, 6, false), vec![Cfg::new(0), Cfg::new(R), Cfg::new(NA | NE)], "{}, r, na+ne"));
     }
     b
 }
